@@ -63,7 +63,7 @@ def key_agreement(ctx, rule, fnpath, field, inst, need_source_guard):
     checked = []
     for g in guards:
         for x in walk(g):
-            if x.get("k") == "mcall" and hm(x["callee"], "contains_key") and _self_field(x["recv"], field):
+            if x.get("k") == "mcall" and (hm(x["callee"], "contains_key") or hm(x["callee"], "get")) and _self_field(x["recv"], field):
                 checked.append(e4.local_hid(x["args"][0]))
     kname = strip(ins["args"][0])["name"]
     names = {p["hid"]: p["name"] for p in fn["params"] if p.get("k") == "bind"}
@@ -240,25 +240,33 @@ def r4(ctx):
     ok = len(binds) == 2 and len(ins) == 1 and [e4.local_hid(a) for a in ins[0]["args"]] == [binds[1][1], binds[0][1]]
     ctx.check("R16.4", "map-inverted", ok, "map-not-inverted", c.loc(fn, inv), "{to: from} -> {from: to}",
               "expected insert(value, key) over self.connect.iter(): " + short(pretty(inv), 160))
-    # use site
+    # use site: `if connect.contains_key(&idx) {..connect[&idx]..}` or `if let Some(to) = connect.get(&idx) {..}` on the inverted (local) map
     adds = []
     for x in walk(fn["body"]):
-        if x.get("k") == "if" and any(y.get("k") == "mcall" and hm(y["callee"], "contains_key") for y in walk(x["c"])):
-            adds.append(x)
+        if x.get("k") != "if":
+            continue
+        cn = strip(x["c"])
+        if cn.get("k") == "letx":
+            init = strip(cn["init"])
+            if init.get("k") == "mcall" and hm(init["callee"], "get") and strip(init["recv"]).get("k") == "local":
+                adds.append((x, init["args"][0], {h for (_, h) in pat_binds(cn["pat"])}))
+        elif cn.get("k") == "mcall" and hm(cn["callee"], "contains_key") and strip(cn["recv"]).get("k") == "local":
+            adds.append((x, cn["args"][0], set()))
     if len(adds) != 1:
-        raise Unestablished("expected one `if connect.contains_key(&idx)` in backward", c.loc(fn))
-    a = adds[0]
-    ck = [y for y in walk(a["c"]) if y.get("k") == "mcall" and hm(y["callee"], "contains_key")][0]
-    idxh = e4.local_hid(ck["args"][0])
+        raise Unestablished("expected one lookup of the current layer in the inverted skip map in backward", c.loc(fn))
+    a, keyn, bound = adds[0]
+    idxh = e4.local_hid(keyn)
     # gradients[self.layers.len() - *connect[&idx]]
     g2 = [y for y in walk(a["th"]) if y.get("k") == "index" and strip(y["b"]).get("k") == "local" and strip(y["b"])["name"] == "gradients"]
     okg = False
     for y in g2:
         i = strip(y["i"])
         if i.get("k") == "bin" and i["op"] == "Sub":
+            from ..hir import let_table, cpretty
+            TT = let_table(fn["body"])
             l, r = strip(i["l"]), strip(i["r"])
-            l_ok = l.get("k") == "mcall" and l["name"] == "len" and mentions_field(l, "layers")
-            r_ok = r.get("k") == "index" and e4.local_hid(r["i"]) == idxh
+            l_ok = cpretty(l, TT) == "self.layers.len()"
+            r_ok = (r.get("k") == "index" and e4.local_hid(r["i"]) == idxh) or (r.get("k") == "local" and r["hid"] in bound)
             okg = okg or (l_ok and r_ok)
     ctx.check("R16.4", "target-gradient-index", okg, "wrong-gradient-index", c.loc(fn, a),
               "gradients[layers.len() - connect[idx]] = input gradient of the target",
